@@ -123,9 +123,9 @@ func runVerify(w *World, opt verifyOpts) int {
 		return 2
 	}
 	thorough := opt.tier == "thorough"
-	secs, depth := 30, 2
+	secs, depth := 60, 2
 	if thorough {
-		secs, depth = 90, 3
+		secs, depth = 180, 3
 	}
 
 	// functions of this property
@@ -147,6 +147,55 @@ func runVerify(w *World, opt verifyOpts) int {
 			continue
 		}
 		fnames = append(fnames, k)
+	}
+	// thorough: also re-prove, in full, every function under contract that the property's functions call
+	// (transitively): the contracts this property's proofs were checked against
+	deps := map[string]bool{}
+	if thorough && !opt.all {
+		have := map[string]bool{}
+		for _, k := range fnames {
+			have[k] = true
+		}
+		work := append([]string(nil), fnames...)
+		for len(work) > 0 {
+			k := work[0]
+			work = work[1:]
+			f := P.Funcs[k]
+			if f == nil {
+				continue
+			}
+			fs := []*ssa.Function{f}
+			for i := 0; i < len(fs); i++ {
+				fs = append(fs, fs[i].AnonFuncs...)
+			}
+			for _, g := range fs {
+				for _, b := range g.Blocks {
+					for _, ins := range b.Instrs {
+						ci, ok := ins.(ssa.CallInstruction)
+						if !ok {
+							continue
+						}
+						callee := ci.Common().StaticCallee()
+						if callee == nil {
+							continue
+						}
+						ck := callee.String()
+						fc := P.Contracts[ck]
+						if fc == nil || fc.Lib || fc.Inline || fc.Behaviour || have[ck] || callee.Blocks == nil {
+							continue
+						}
+						have[ck] = true
+						deps[ck] = true
+						fnames = append(fnames, ck)
+						work = append(work, ck)
+					}
+				}
+			}
+		}
+	}
+	depNames := map[string]bool{}
+	for k := range deps {
+		depNames[shortTypeName(k)] = true
 	}
 	for _, k := range fnames {
 		results = append(results, w.verifyFunction(P.Funcs[k], P.Contracts[k]))
@@ -247,7 +296,7 @@ func runVerify(w *World, opt verifyOpts) int {
 			if opt.onlyObl != "" && o.Name != opt.onlyObl {
 				continue
 			}
-			if opt.all || len(o.Tags) == 0 || hasTag(o.Tags, opt.prop) {
+			if opt.all || len(o.Tags) == 0 || hasTag(o.Tags, opt.prop) || depNames[o.Func] {
 				obls = append(obls, o)
 			}
 		}
